@@ -50,6 +50,16 @@ func cfgFor(id string) propCfg {
 		c.Fuzz = []fuzzTarget{{"FuzzInterp", 4 * time.Minute}}
 	case "C08":
 		c.Fuzz = []fuzzTarget{{"FuzzAlias", 2 * time.Minute}}
+	case "C02":
+		c.Fuzz = []fuzzTarget{{"FuzzForkID", 2 * time.Minute}}
+	case "C03":
+		c.Fuzz = []fuzzTarget{{"FuzzLegacy", 2 * time.Minute}}
+	case "C11":
+		c.Fuzz = []fuzzTarget{{"FuzzIdentities", 2 * time.Minute}}
+	case "C12":
+		c.Fuzz = []fuzzTarget{{"FuzzFund", 2 * time.Minute}}
+	case "C20":
+		c.Fuzz = []fuzzTarget{{"FuzzFlows", 2 * time.Minute}}
 	case "C10":
 		c.Fuzz = []fuzzTarget{{"FuzzChange", 2 * time.Minute}}
 	case "C16":
